@@ -215,12 +215,12 @@ class PPRule:
 sanitize_registry = {
     REGEX: {
         # Strip line annotations from Fypp preprocessor
-        'FYPP ANNOTATIONS': PPRule(match=re.compile(r'(# [1-9].*\".*\.(?:fypp|hypp)\"(?:\s+\d+)?\n)'), replace=''),
+        'FYPP ANNOTATIONS': PPRule(match=re.compile(r'(^\s*# [1-9].*\".*\.(?:fypp|hypp)\"(?:\s+\d+)?\n)'), replace=''),
     },
     OMNI: {},
     FP: {
         # Remove various IBM directives
-        'IBM_DIRECTIVES': PPRule(match=re.compile(r'(@PROCESS.*\n)'), replace='\n'),
+        'IBM_DIRECTIVES': PPRule(match=re.compile(r'(^\s*@PROCESS.*\n)'), replace='\n'),
 
         # Enquote string CPP directives in Fortran source lines to make them string constants
         # Note: this is a bit tricky as we need to make sure that we don't replace it inside CPP
@@ -251,7 +251,7 @@ sanitize_registry = {
             postprocess=reinsert_open_newunit),
 
         # Strip line annotations from Fypp preprocessor
-        'FYPP ANNOTATIONS': PPRule(match=re.compile(r'(# [1-9].*\".*\.(?:fypp|hypp)\"(?:\s+\d+)?\n)'), replace=''),
+        'FYPP ANNOTATIONS': PPRule(match=re.compile(r'(^\s*# [1-9].*\".*\.(?:fypp|hypp)\"(?:\s+\d+)?\n)'), replace=''),
     }
 }
 """
